@@ -7,7 +7,8 @@
 // enumeration of binding situations (which of the visible scopes declare the name x how the
 // reference is written x where it stands), seeded random schemas (gen.go), a stream of odd but
 // builder-accepted type statements, schemas with a typedef at every kind of scope in every
-// statement, and packagings (pack.go): every corpus set and a share of every generated group
+// statement, chains with pattern and posix-pattern statements of coinciding texts at every level
+// (pat.go, with a Go-side reference accumulation of both lists), and packagings (pack.go): every corpus set and a share of every generated group
 // loaded again with the same statements distributed over source texts differently (all in one
 // text, module + submodule, importer + imported), compared with the model, the specification and
 // the one-statement-per-text form.
@@ -86,6 +87,9 @@ type goRes struct {
 	InAug    map[string]bool      `json:"in_augment,omitempty"`
 	Dropped  int                  `json:"entry_layer_errors_left_out,omitempty"`
 	Panic    string               `json:"panic,omitempty"`
+	// Acc: findings of the Go-side accumulation oracle (pat.go): pattern / posix-pattern lists of a
+	// resolved type that are not the accumulation of the chain's statements of their own kind
+	Acc []string `json:"pattern_accumulation_findings,omitempty"`
 }
 
 // ---------------------------------------------------------------------------------------------
@@ -215,6 +219,7 @@ func walkAST(m *yang.Module, res *goRes) {
 		switch s := n.(type) {
 		case *yang.Leaf:
 			if s.Type != nil {
+				accOracle(res, s.Type, 0)
 				res.Ast[yang.Source(s)] = lib.DumpYangType(s.Type.YangType)
 				if inAug > 0 {
 					res.InAug[yang.Source(s)] = true
@@ -223,6 +228,7 @@ func walkAST(m *yang.Module, res *goRes) {
 			return
 		case *yang.LeafList:
 			if s.Type != nil {
+				accOracle(res, s.Type, 0)
 				res.Ast[yang.Source(s)] = lib.DumpYangType(s.Type.YangType)
 				if inAug > 0 {
 					res.InAug[yang.Source(s)] = true
@@ -231,6 +237,8 @@ func walkAST(m *yang.Module, res *goRes) {
 			return
 		case *yang.Value:
 			return
+		case *yang.Typedef:
+			accOracleTypedef(res, s)
 		case *yang.Augment:
 			inAug++
 			defer func() { inAug-- }()
@@ -855,6 +863,19 @@ func main() {
 	cases = append(cases, exh...)
 	col := collisionCases()
 	cases = append(cases, col...)
+	// pattern and posix-pattern statements with coinciding texts at every level of a chain (pat.go)
+	pat := patExhaustive()
+	nPat := 448
+	if f.Thorough() {
+		nPat = 12000
+	}
+	{
+		r := f.Rand(7004)
+		for i := 0; i < nPat; i++ {
+			pat = append(pat, patRandom(r, fmt.Sprintf("pat/rnd/%d", i)))
+		}
+	}
+	cases = append(cases, pat...)
 	nRandom, nOdd, nChain, nRev, nHist := 6000, 600, 2000, 1500, 1500
 	if f.Thorough() {
 		nRandom, nOdd, nChain, nRev, nHist = 150000, 8000, 40000, 30000, 30000
@@ -906,7 +927,7 @@ func main() {
 	// packagings of a share of each generated group
 	{
 		r := f.Rand(7001)
-		every := map[string]int{"exh": 8, "col": 6, "rnd": 8, "odd": 4, "chain": 8, "rev": 8, "hist": 8, "utd": 6}
+		every := map[string]int{"exh": 8, "col": 6, "rnd": 8, "odd": 4, "chain": 8, "rev": 8, "hist": 8, "utd": 6, "pat": 16}
 		count := map[string]int{}
 		for _, c := range cases {
 			grp := strings.SplitN(c.ID, "/", 2)[0]
@@ -1096,6 +1117,7 @@ func main() {
 			}
 			sbad = append(specCheckTD(g, tds), sbad...)
 			sbad = append(sbad, utdPlantedCheck(c, g)...)
+			sbad = append(sbad, g.Acc...)
 			if len(diffs) == 0 && len(sbad) == 0 {
 				continue
 			}
@@ -1165,6 +1187,7 @@ func main() {
 	res.Distribution["exhaustive_binding_cases"] = len(exh)
 	res.Distribution["unused_typedef_cases_scope_x_fault_x_alone_or_next_to_used_then_random"] = len(utd)
 	res.Distribution["exhaustive_prefix_vs_module_name_cases"] = len(col)
+	res.Distribution["pattern_and_posix_pattern_chain_cases_exhaustive_then_random"] = len(pat)
 	res.Distribution["random_cases"] = nRandom / shards * shards
 	res.Distribution["odd_cases"] = nOdd / shards * shards
 	res.Distribution["chain_depth5_cases"] = nChain / shards * shards
@@ -1191,6 +1214,7 @@ func main() {
 		"sets in which an include/import does not resolve are compared only on Process() reporting it",
 		"packagings: every corpus set of two or more files in every load order (up to 3 files; identity, reverse and rotations beyond), and a share of every generated group (1 in 4 to 8; all scope/ cases), is loaded again with the same statements cut into source texts differently: all in one text, a module with its submodule in one text, an importer with an imported module in one text; a packaged case is compared with the model and judged by the specification like any other, and its Go observation (types, defaults, errors per leaf, Process() errors; positions mapped back) with that of the one-statement-per-text form in the same load order",
 		"typedef statements themselves (specification verdict per typedef statement, any scope, used or not): where the type of a typedef is unknown, unresolvable or cyclic by lexical binding, Process() must report an error at it - exactly at the typedef's type statement (class unknown type / unknown prefix) when that statement's own name is unbound, else at some statement of the derivation (an identity base, non-boolean require-instance or extension statement of the derivation may answer with an error that carries the position of its (sub)module statement or none); utd/ cases: 12 scope shapes (module, submodule, container, list, used and unused grouping, rpc, input, output, notification, action, grouping in a list in a container) x 19 typedef groups (2 controls; unknown name plain / own prefix / foreign prefix, unknown prefix, a name visible only in a sibling scope or in a nested scope of the imported module, cycles of length 1-3 directly and through unions, chain to an unknown name, unknown union member, dependence on a cyclic typedef, bad range / length / range outside the base / fraction-digits on an integer) x alone or next to a used typedef, then random combinations of 1-3 scopes (also in the submodule's text; also next to an unused good typedef, or used by a leaf itself), files in random order; the restriction faults of the utd/ texts are also judged by construction (utdPlantedCheck: Process() must report an error at the descending range / length, the range outside int8, the type statement with fraction-digits on int16), independent of the model",
+		"pat/ cases: pattern statements and openconfig-extensions posix-pattern statements side by side at every level of a chain, texts coinciding between the two kinds and between levels: pat/exh = typedef t1 { type string {A} } typedef t2 { type t1 {B} } leaf { type t2 {C} } for every subset A, B, C of {pattern X, posix-pattern X, pattern Y, posix-pattern Y} (one case per (A, B), one leaf per C, a leaf-list and a union restricting t1 and t2); pat/rnd = chains of depth 1-5 across a submodule and an import, 0-2 statements of each kind per level from a pool of 2 (70%) or 5 texts, openconfig-extensions imported under varying prefixes, a decoy module other-extensions with an extension of the same name whose statements must not count (sometimes the two prefixes swapped); besides the model comparison (both lists, in order) and the executable specification (the set of pattern statements), a Go-side oracle (accOracle) judges both lists of every resolved type statement of every case (leaf, leaf-list, typedef, union member) against a reference accumulation per kind, in chain order, over the statements reached through YangType.Base",
 		"multi-revision cases: module b in 2-3 revisions with differing same-named typedefs, imports pinned by revision-date / unpinned / pinned to an absent revision, one or two imports of b per importer, references direct, through typedefs of typedefs, unions and a third module")
 	res.Write(f.Out)
 }
@@ -1254,6 +1278,7 @@ func replay(f *lib.Flags) {
 	diffs := compare(g, m)
 	sbad := append(specCheckTD(g, parseSpecTD(sans)), specCheck(g, parseSpec(sans))...)
 	sbad = append(sbad, utdPlantedCheck(c, g)...)
+	sbad = append(sbad, g.Acc...)
 	for _, fl := range c.Files {
 		fmt.Printf("--- %s\n%s\n", fl.Name, fl.Text)
 	}
